@@ -16,6 +16,10 @@ if kind == 'seeds':
     items += [(os.path.basename(p)[:-6], p) for p in sorted(glob.glob('mutants/*.patch'))]
 else:
     items = [(os.path.basename(os.path.dirname(p)), p) for p in sorted(glob.glob('refactors/*/patch.diff'))]
+SINGLE = True  # seeds: the own property's check is also run on its own, as the registered command runs it
+KFPROP = {'KF-01':'C01','KF-02':'C01','KF-03':'C03','KF-04':'C05','KF-05':'C05','KF-06':'C06','KF-07':'C09','KF-08':'C10','KF-09':'C13','KF-10':'C13','KF-12':'C18','KF-13':'C18','KF-14':'C19','KF-15':'C19'}
+def own_of(name):
+    return name[:3] if name.startswith('C') else (name.split('-')[1] if name.startswith('hand-') else KFPROP.get(name.replace('revert-', ''), '?'))
 if only: items = [it for it in items if any(it[0].startswith(o) for o in only)]
 os.makedirs('/tmp/mx', exist_ok=True)
 rows = {}; q = queue.Queue(); lock = threading.Lock()
@@ -32,6 +36,12 @@ def worker(i):
                 continue
             try:
                 out = sh(f'/verif/bin/zapverif check all --repo {wt} --verif {vd}').stdout
+                single = None
+                if kind == 'seeds' and SINGLE:
+                    own1 = own_of(name)
+                    if own1.startswith('C'):
+                        o1 = sh(f'/verif/bin/zapverif check {own1} --repo {wt} --verif {vd}').stdout
+                        single = bool(re.search(r'^VIOLATION property=' + own1, o1, re.M))
             finally:
                 sh('git checkout -q -- . && git clean -fdq', cwd=wt)
             viol = sorted(set(re.findall(r'^VIOLATION property=(C\d+)', out, re.M)))
@@ -39,6 +49,10 @@ def worker(i):
             keys = sorted(set(re.findall(r'^(?:violated|undecided|rule-below-minimum)\s+(\S+)', out, re.M)))
             with lock:
                 rows[name] = {'violation': viol, 'undecided': und, 'keys': keys[:12]}
+                if single is not None:
+                    rows[name]['own_alone'] = single
+                    if single != (own_of(name) in viol):
+                        print(name, 'DIFFERS: own check run alone fires =', single, 'within check all =', own_of(name) in viol, flush=True)
                 print(name, 'VIOLATION:', ' '.join(viol) or '-', ' UNDECIDED:', ' '.join(und) or '-', flush=True)
                 if kind != 'seeds':
                     for k in keys[:6]: print('     ', k[:200], flush=True)
@@ -60,7 +74,7 @@ if kind == 'seeds':
     for name, r in rows.items():
         own = name[:3] if name.startswith('C') else (name.split('-')[1] if name.startswith('hand-') else kfprop.get(name.replace('revert-', ''), '?'))
         if 'error' in r: lines.append(f'| {name} | {own} | - | {r["error"]} | |'); continue
-        fires = own in r['violation']
+        fires = own in r['violation'] and r.get('own_alone', True)
         if not fires: missed.append(name)
         lines.append(f'| {name} | {own} | {"yes" if fires else "**NO**"} | {" ".join(r["violation"])} | {" ".join(r["undecided"])} |')
     print('missed by own check:', missed)
